@@ -727,3 +727,80 @@ U_TABLE_ITER = Unit("PeriodicTable.__iter__", CORE + ".PeriodicTable.__iter__", 
                     replay={"module": "c08", "task": "replay"})
 U_ELEMENT_ITER = Unit("Element.__iter__", CORE + ".Element.__iter__", _iter_inputs("Element", "_isotopes"), _iter_post,
                       replay={"module": "c08", "task": "replay"})
+
+
+# ------------------------------------------------------------------------------ loader guards: every init() marks the table with ITS OWN name
+
+LOADER_MODULES = ("activation", "covalent_radius", "crystal_structure", "density", "magnetic_ff", "mass", "nsf", "xsf")
+
+
+def lemma_loader_marks():
+    """each `init(table, reload=False)` returns early iff its own mark is in table.properties and appends exactly that mark; the
+    marks of the eight loaders are pairwise different (otherwise initialising one data family blocks or repeats another)"""
+    import ast
+    from pyvc import extract
+    st = State()
+    marks = {}
+    reads = lemma_loader_marks.reads = []
+    for m in LOADER_MODULES:
+        mod = extract.module("periodictable." + m)
+        fn = mod.toplevel("init")
+        reads.append("periodictable.%s.init" % m)
+        tested, appended = [], []
+        for n in ast.walk(fn):
+            if isinstance(n, ast.If) and isinstance(n.test, ast.BoolOp) and isinstance(n.test.op, ast.And):
+                c = n.test.values[0]
+                if isinstance(c, ast.Compare) and isinstance(c.left, ast.Constant) and isinstance(c.ops[0], ast.In) \
+                        and ast.unparse(c.comparators[0]).endswith(".properties") and n.body and isinstance(n.body[0], ast.Return):
+                    tested.append(c.left.value)
+            if isinstance(n, ast.Call) and isinstance(n.func, ast.Attribute) and n.func.attr == "append" \
+                    and ast.unparse(n.func.value).endswith(".properties") and n.args and isinstance(n.args[0], ast.Constant):
+                appended.append(n.args[0].value)
+        st.oblige("%s.init: the guard tests the mark that init appends (one mark)" % m,
+                  z3.BoolVal(len(tested) == 1 and len(appended) == 1 and tested == appended), kind="lemma",
+                  info={"tested": tested, "appended": appended}, assume_after=False)
+        if appended:
+            marks[m] = appended[0]
+    st.oblige("the marks of the loaders are pairwise different", z3.BoolVal(len(set(marks.values())) == len(marks) == len(LOADER_MODULES)),
+              kind="lemma", info={"marks": marks}, assume_after=False)
+    return [st]
+
+
+L_LOADER_MARKS = Lemma("loaders.each-init-uses-its-own-mark", lemma_loader_marks, advisory=True, replay={"module": "stateful", "task": "C06"})
+
+
+# ------------------------------------------------------------------------------ define_elements (exports a table's atoms into a namespace)
+
+def _de_inputs(st, interp):
+    use_state(st)
+    els = [VObj("ElemStub", {"symbol": s, "name": n}) for s, n in (("Fe", "iron"), ("O", "oxygen"))]
+    D = VObj("ElemStub", {"symbol": "D", "name": "deuterium"})
+    T_ = VObj("ElemStub", {"symbol": "T", "name": "tritium"})
+    table = VObj("TableIter", {"els": els, "D": D, "T": T_})
+    other = VObj("ElemStub", {"symbol": "Fe", "name": "iron", "of": "another table"})
+    ns = VDict([["Fe", other], ["iron", other], ["_mine", "caller's own name"]])
+    return [table, ns], {}, {"els": els + [D, T_], "ns": ns}
+
+
+def c_tableiter_iter(interp, st, args, kw):
+    return VList(list(args[0].attrs["els"]))
+
+
+def _de_post(st, interp, C, res):
+    if res.outcome == "raise":
+        st.oblige("never-raises", False, kind="raises", info={"exc": res.exc})
+        return
+    ns = {k: v for k, v in C["ns"].entries if isinstance(k, str)}
+    want = {}
+    for e in C["els"]:
+        want[e.attrs["symbol"]] = e
+        want[e.attrs["name"]] = e
+    st.oblige("post.every symbol and name of the table (D and T included) is bound to THIS table's atom, replacing what was bound before",
+              z3.BoolVal(all(ns.get(k) is v for k, v in want.items())), info={"bound": sorted(k for k, v in want.items() if ns.get(k) is v)})
+    st.oblige("post.other names of the namespace are left alone", z3.BoolVal(ns.get("_mine") == "caller's own name" and set(ns) == set(want) | {"_mine"}))
+    r = res.value
+    st.oblige("post.returns the list of exported names", z3.BoolVal(isinstance(r, VList) and sorted(r.items) == sorted(want)))
+
+
+U_DEFINE_ELEMENTS = Unit("define_elements", CORE + ".define_elements", _de_inputs, _de_post, contracts={"TableIter.__iter__": c_tableiter_iter},
+                         writes={"*"}, replay={"module": "c08", "task": "replay"})
